@@ -641,7 +641,7 @@ var _ = token.NoPos
 func init() {
 	describe("C08", Meta{
 		Technique: "regular-language disjointness by product automaton over regexp/syntax programs extracted from the type-checked source (go/constant), plus named-group writer/reader agreement",
-		Claim:     "Decides exactly, over all strings, the clause 'at most one notation accepts any string' for every regex that can reach bmnumbers.AllMatchers, and that each import function only substitutes groups its regexes define. A necessary condition of C08; value round-trips and stated widths are not decided.",
+		Claim:     "Decides exactly, over all strings, the clause 'at most one notation accepts any string' for every regex that can reach bmnumbers.AllMatchers, and that each import function only substitutes groups its regexes define. A necessary condition of C08; value round-trips and stated widths are not decided. (SINGLEPARSER) a string handed to bmnumbers.ImportString is not also read with strconv in the same function.",
 		Note:      "Trusts regexp/syntax's parser/compiler (the same one the repo uses at run time) and that matcher keys are compile-time constants (a non-constant key is reported as undecided). Each witness is re-validated with regexp.MatchString.",
 		DesignRef: "DESIGN.md §2 C08",
 	})
